@@ -714,8 +714,17 @@ func (c *nctx) stmts(list []ast.Stmt, k func() string) string {
 	case *ast.AssignStmt:
 		if c.stepRef != nil && s.Tok == token.ASSIGN && len(s.Lhs) == 1 && len(s.Rhs) == 1 {
 			if id, ok := unparen(s.Lhs[0]).(*ast.Ident); ok && c.w.info.Uses[id] == c.stepRef {
-				if len(rest) != 0 {
-					c.fail(s.Pos(), "statements after `%s = …` in a walk step", id.Name)
+				for _, r := range rest {
+					// the enclosing loop's own bookkeeping after the step: `depth++` and `continue`
+					if inc, ok := r.(*ast.IncDecStmt); ok && inc.Tok == token.INC {
+						if _, known := c.env[c.w.info.Uses[rootIdent(inc.X)]]; !known {
+							continue
+						}
+					}
+					if br, ok := r.(*ast.BranchStmt); ok && br.Tok == token.CONTINUE && br.Label == nil {
+						continue
+					}
+					c.fail(r.Pos(), "statements after `%s = …` in a walk step", id.Name)
 				}
 				return "pure " + c.rhs(s.Rhs[0], "ref") + "\n"
 			}
@@ -1843,6 +1852,86 @@ func genNodeOps(w *world) string {
 		b.WriteString(w.genNodeMethod(m.recv, m.name) + "\n")
 	}
 	b.WriteString("end ArtVerif.Gen.NodeOps\n")
+	return b.String()
+}
+
+// genSearchStep: the generated trees' Search inlines findChild: `b := keyS[depth]; switch n.tag { case nodeKind4: … if
+// i := searchNode4(n4.keys, b); i != -1 && i < int(n4.childrenLen) { n = n4.children[i]; depth++; continue } … }; break`.
+// The switch becomes `search_find (tag) (nd) (b) : Option (Option C)` – the child the descent continues with, `none`
+// (inside the monad's value) when the switch falls through to the `break`.
+func (w *world) genSearchStep(recv string) string {
+	fd := w.findMethod("Search", recv)
+	c := &nctx{w: w, fname: "search_find_" + strings.TrimSuffix(recv, "SortedTree"), env: map[types.Object]*nvar{}, used: map[string]int{}, viewOf: map[*nvar]*nvar{}}
+	var sw *ast.SwitchStmt
+	var nObj types.Object
+	ast.Inspect(fd.Body, func(x ast.Node) bool {
+		if s, ok := x.(*ast.SwitchStmt); ok && sw == nil && s.Tag != nil {
+			if sel, ok := unparen(s.Tag).(*ast.SelectorExpr); ok && sel.Sel.Name == "tag" {
+				if id, ok := unparen(sel.X).(*ast.Ident); ok && w.isNamed(w.info.TypeOf(id), "nodeRef") {
+					sw, nObj = s, w.info.Uses[id]
+				}
+			}
+		}
+		return true
+	})
+	if sw == nil {
+		// Search that calls (*nodeRef).findChild instead of inlining it: the lookup IS node.go's findChild
+		calls := false
+		ast.Inspect(fd.Body, func(x ast.Node) bool {
+			if call, ok := x.(*ast.CallExpr); ok {
+				if sel, ok := unparen(call.Fun).(*ast.SelectorExpr); ok && sel.Sel.Name == "findChild" && len(call.Args) == 1 {
+					calls = true
+				}
+			}
+			return true
+		})
+		if !calls {
+			w.failAt(fd.Pos(), "trees.go translator: %s.Search: neither a `switch n.tag` nor a call of findChild found", recv)
+		}
+		return strings.ReplaceAll(w.genNodeMethod("nodeRef", "findChild"), "nodeRef_findChild", c.fname)
+	}
+	c.stepRef, c.refObj, c.dispatch = nObj, nObj, true
+	c.used["tag"], c.used["nd"], c.used["E"], c.used["fuel"], c.used["loopFuel"] = 1, 1, 1, 1, 1
+	// the probe byte: the only free local of the switch
+	var params []string
+	seen := map[types.Object]bool{}
+	ast.Inspect(sw.Body, func(x ast.Node) bool {
+		if id, ok := x.(*ast.Ident); ok {
+			obj := w.info.Uses[id]
+			if v, ok := obj.(*types.Var); ok && !seen[obj] && obj != nObj && v.Pos() < sw.Pos() && v.Pos() > fd.Body.Pos() && !v.IsField() {
+				seen[obj] = true
+				if b, ok := v.Type().Underlying().(*types.Basic); ok && b.Kind() == types.Uint8 {
+					nv := c.declare(obj, "u8")
+					params = append(params, fmt.Sprintf("(%s : UInt8)", nv.lean))
+				} else if b, ok := v.Type().Underlying().(*types.Basic); ok && b.Kind() == types.Int {
+					// `depth` is only incremented after the step
+				} else {
+					w.failAt(id.Pos(), "trees.go translator: the switch of Search reads %s of type %s", id.Name, v.Type())
+				}
+			}
+		}
+		return true
+	})
+	code := c.switchStmt(sw, func() string { return "pure none\n" })
+	var b strings.Builder
+	for _, l := range c.loops {
+		b.WriteString(l + "\n")
+	}
+	fmt.Fprintf(&b, "def %s (E : Env C) (tag : Nat) (nd : Img C) %s : Option (Option C) := do\n%s", c.fname, strings.Join(params, " "), indentN(code, "  "))
+	return b.String()
+}
+
+func genSearchOps(w *world) string {
+	var b strings.Builder
+	b.WriteString("-- GENERATED by tools/extract from /repo/trees.go — do not edit.\n")
+	b.WriteString("import ArtVerif.Model.GoNode\n")
+	b.WriteString("set_option linter.unusedVariables false\n")
+	b.WriteString("namespace ArtVerif.Gen.SearchOps\nopen ArtVerif ArtVerif.GoNode\nvariable {C : Type}\n\n")
+	b.WriteString("-- the child lookup inlined in Search of the five generated trees and of the collation tree\n")
+	for _, recv := range []string{"alphaSortedTree", "unsignedSortedTree", "signedSortedTree", "floatSortedTree", "compoundSortedTree", "collationSortedTree"} {
+		b.WriteString(w.genSearchStep(recv) + "\n")
+	}
+	b.WriteString("end ArtVerif.Gen.SearchOps\n")
 	return b.String()
 }
 
